@@ -25,3 +25,23 @@ Section Capture.
     split; [exact Hpos|]. rewrite Hp, firstn_length, Hd. lia.
   Qed.
 End Capture.
+
+(* A prefix request never captures more than it was asked for (or than was
+   already captured): format detection reads a bounded amount. *)
+Section Bounded.
+  Variable sched : nat -> nat.
+
+  Theorem capture_bounded c size c' r :
+    Inv c -> cap_capture_up_to c size = (c', r) ->
+    length (prefix c') <= Nat.max (length (prefix c)) size.
+  Proof.
+    intros (Hp & Hd & Hpos & Hsrc & Heof) H. unfold cap_capture_up_to in H.
+    destruct (size - length (prefix c) =? 0) eqn:Hn.
+    - inversion H; subst c'. lia.
+    - apply Nat.eqb_neq in Hn.
+      destruct (src_read_to_end_take (source c) (size - length (prefix c)) Hsrc ltac:(lia))
+        as (s' & bs & rr & Hr & _ & _ & _ & _ & _ & Hbl & _).
+      rewrite Hr in H.
+      destruct rr as [lim|e]; inversion H; subst c'; cbn [prefix]; rewrite app_length; lia.
+  Qed.
+End Bounded.
